@@ -168,7 +168,8 @@ FIELD_WRITERS = {
     "board": {"push", "push_unchecked", "pop", "new"},
     "start": {"new"},
     "repeat": {"do_finish_push", "pop", "new"},
-    "outcome": {"clear_outcome", "set_outcome", "reset_outcome", "new"},
+    # set_auto_outcome is an outcome setter of the API as well (what it stores is decided by C14/R2a)
+    "outcome": {"clear_outcome", "set_outcome", "reset_outcome", "new", "set_auto_outcome"},
 }
 
 
@@ -469,12 +470,20 @@ def auto_outcome_rule(ctx, facts, rid):
         if passes == "?":
             r.fail(key, "set_auto_outcome tests passes() on something else than (calculated outcome, requested filter)", site=ctx.site(fn))
             continue
-        ok = (len(stores) == 1) == should
-        if ok and should:
-            v = unstamp(path_value(stores[0][2], choices))
-            ok = v[0] == "agg" and v[2] == "Some" and "calc_outcome(self)" in show(v)
-        r.check(ok, key, "set_auto_outcome: outcome stored=%s on a path where calculated-outcome-present=%s and passes(filter)=%s"
-                % (len(stores) == 1, some, passes), site=ctx.site(fn), what=key)
+        # what the field holds afterwards: untouched (it is None on entry: the function asserts the game is unfinished), None, or the
+        # calculated outcome - whether by a guarded store or by storing a filtered Option
+        eff = "none"
+        if stores:
+            v = unstamp(path_value(stores[-1][2], choices))
+            if v[0] == "agg" and v[2] == "None":
+                eff = "none"
+            elif v[0] == "agg" and v[2] == "Some" and "calc_outcome(self)" in show(v):
+                eff = "some"
+            else:
+                eff = "?"
+        ok = eff != "?" and (eff == "some") == should and len(stores) <= 1
+        r.check(ok, key, "set_auto_outcome: the outcome field ends as %s on a path where calculated-outcome-present=%s and passes(filter)=%s"
+                % ({"none": "None", "some": "the calculated outcome", "?": "something else"}[eff], some, passes), site=ctx.site(fn), what=key)
 
 
 def repeat_pairing_rule(ctx, facts, rid):
@@ -686,6 +695,24 @@ def walker_step_rule(ctx, facts, rid):
                         if a is None or b is None:
                             return None
                         sg = 1 if e[1] == "Add" else -1
+                        return (a[0] + sg * b[0], a[1] + sg * b[1])
+                    if e[0] == "downcast" and e[2] in ("Some", "Continue"):
+                        inner = e[1]
+                        if inner[0] == "call" and inner[1].endswith("::branch") and inner[2]:
+                            inner = inner[2][0]          # `x?` on an Option: the Some payload
+                        if inner[0] == "call" and inner[2] and len(inner[2]) == 2:
+                            op = inner[1].split("::")[-1]
+                            if op in ("checked_sub", "checked_add"):
+                                a, b = lin(inner[2][0]), lin(inner[2][1])
+                                if a is None or b is None:
+                                    return None
+                                sg = 1 if op == "checked_add" else -1
+                                return (a[0] + sg * b[0], a[1] + sg * b[1])
+                    if e[0] == "call" and e[2] and len(e[2]) == 2 and e[1].split("::")[-1] in ("wrapping_sub", "wrapping_add"):
+                        a, b = lin(e[2][0]), lin(e[2][1])
+                        if a is None or b is None:
+                            return None
+                        sg = 1 if e[1].endswith("wrapping_add") else -1
                         return (a[0] + sg * b[0], a[1] + sg * b[1])
                     return None
                 want = (1, 0) if meth == "next" else (1, -1)          # next: the move at the old pos; prev: at old pos - 1
